@@ -70,6 +70,11 @@ func (l *Linter) Lint(node ast.Node, ctx *context.Context) types.Type {
 
 	l.lint(node, ctx)
 
+	// Ignore comments cover statements. A range which is still open at the end of the file
+	// (e.g. falco-ignore-end is the last comment of the file) must not cover the following checks,
+	// they report on declarations which are marked as used when ignored on the declaration.
+	l.ignore = &ignore{}
+
 	// After whole VCLs have been linted in main VCL, check all definitions are exactly used.
 	l.lintUnusedTables(ctx)
 	l.lintUnusedAcls(ctx)
@@ -458,7 +463,7 @@ func (l *Linter) resolveFileInclusion(
 ) []ast.Statement {
 
 	var statements []ast.Statement
-	module, err := ctx.Restore().Resolver().Resolve(include)
+	module, err := ctx.Resolver().Resolve(include)
 	if err != nil {
 		e := &LintError{
 			Severity: ERROR,
